@@ -3,6 +3,7 @@ import BppModel.Drive.C01
 import BppModel.Drive.C02
 import BppModel.Drive.C05
 import BppModel.Drive.C07
+import BppModel.Drive.C08
 import BppModel.Drive.C11
 import BppModel.Drive.C19
 import BppModel.Drive.C20
@@ -14,6 +15,7 @@ def main (args : List String) : IO UInt32 := do
   | ["C02"] => Proto.run Drive.C02.machine; return 0
   | ["C05"] => Proto.run Drive.C05.machine; return 0
   | ["C07"] => Proto.run Drive.C07.machine; return 0
+  | ["C08"] => Proto.run Drive.C08.machine; return 0
   | ["C11"] => Proto.run Drive.C11.machine; return 0
   | ["C19"] => Proto.run Drive.C19.machine; return 0
   | ["C20"] => Proto.run Drive.C20.machine; return 0
